@@ -339,6 +339,29 @@ unsafe fn drop_cycle<T>(cycle: HashMap<Link<T>, usize>) {
     }
 }
 
+/// Remove `this` from the adoption graph.
+///
+/// Every object that `this` has adopted, or that has adopted `this`, drops its
+/// links to `this`, and the links of `this` are cleared. This must happen
+/// before the allocation of `this` is given up by a path that does not go
+/// through `Drop`, otherwise the other objects keep links to an allocation
+/// that no longer holds a live `Rc` and dereference it during cycle detection.
+pub(crate) unsafe fn unlink<T>(this: &Rc<T>) {
+    let forward = Link::forward(this.ptr);
+    let backward = Link::backward(this.ptr);
+    let links = this.inner().links();
+    for (item, &strong) in links.borrow().iter() {
+        // if `this` has adopted itself, these links are cleared below.
+        if ptr::eq(this.inner(), item.as_ptr()) {
+            continue;
+        }
+        let mut links = item.as_ref().links().borrow_mut();
+        links.remove(forward, strong);
+        links.remove(backward, strong);
+    }
+    links.borrow_mut().clear();
+}
+
 // Drop an `Rc` that is unreachable, but has adopted other `Rc`s.
 //
 // Unreachable `Rc`s have a strong count of zero, but because they have adopted
